@@ -581,6 +581,14 @@ IDENTITY = {
     "core::hint::must_use",
 }
 
+STRING_CTORS = {
+    "std::convert::From::from",
+    "std::convert::Into::into",
+    "std::string::ToString::to_string",
+    "std::borrow::ToOwned::to_owned",
+    "std::string::String::from",
+}
+
 UNWRAP_SOME = {
     "std::option::Option::<T>::unwrap",
     "std::option::Option::<T>::expect",
@@ -622,6 +630,10 @@ def model_call(crate, fn, args, site, term=None):
             if v is not None:
                 return v
             return ("call", target.path, args, site)
+    if path in STRING_CTORS and args and args[0][0] == "const" and args[0][1] == "str" and term is not None \
+            and term["dest"]["ty"] == "std::string::String":
+        # a fresh String object: identity = creation site (two buffers with equal initial text stay distinct)
+        return ("obj", "String", args[0], site)
     if path in IDENTITY and args:
         return args[0]
     if path in UNWRAP_SOME and args:
@@ -724,7 +736,7 @@ def subst_params(t, env):
         return mk_proj(subst_params(t[1], env), e)
     if k == "phi":
         return mk_phi(t[1], [subst_params(v, env) for v in t[2]])
-    if k in ("const", "rec", "unknown", "bottom"):
+    if k in ("const", "rec", "unknown", "bottom", "obj"):
         return t
     if k == "call":
         return ("call", t[1], tuple(subst_params(a, env) for a in t[2]), t[3])
@@ -779,6 +791,8 @@ def show(t, names=None):
             return "%s[%s]" % (b, show(e[1], names))
     if k == "opt":
         return "Some(%s)" % show(t[1], names)
+    if k == "obj":
+        return "%s#%s" % (show(t[2], names), t[3][1] if t[3] else "")
     if k == "elem":
         return show(t[1], names) + "[*]"
     if k == "enumelem":
